@@ -808,7 +808,6 @@ def judge_flat(res, case, vfs, info, top, obs, mode):
     gi = [[ref.urljoin(base, r[1]), r[2]] for r in got_imports]
     ok = True
     if gi != exp['imports']:
-        ok = False
         if [m for _, m in gi] == [m for _, m in exp['imports']]:
             res.clauses['C19.flatten.urls'] += 1
             i = _first_diff(gi, exp['imports'])
@@ -821,12 +820,19 @@ def judge_flat(res, case, vfs, info, top, obs, mode):
                 sig = 'nested-kept-import-href-not-rebased'
             else:
                 sig = f'kept-import-resolves-elsewhere|{ref.url_diff(tgt, gi[i][0])}|{why}|nested={bool(parent_path)}'
-            _viol(res, 
-                'C19.flatten.urls', sig, case, exp['imports'], gi,
+            _viol(
+                res, 'C19.flatten.urls', sig, case, exp['imports'], gi,
                 note=f'href {orig!r} of the {why} target of sheet {name[:-1] or "t"!r} is {got_imports[i][1]!r} in the combined sheet\n{note}',
             )
         else:
-            _viol(res, 'C19.flatten.rules', f'kept-imports|expected={len(exp["imports"])}|got={len(gi)}', case, exp['imports'], gi, note=note)
+            needless = [g for g in gi if g[0] in vfs and g[1] == 'all']
+            if needless:
+                # an available target imported for all media can always be merged
+                sym = 'available-import-without-media-kept'
+            else:
+                sym = f'expected={len(exp["imports"])}|got={len(gi)}'
+            _viol(res, 'C19.flatten.rules', 'kept-imports|' + sym, case, exp['imports'], gi, note=note)
+        return
     # -- namespaces
     if got_ns != exp['namespaces']:
         ok = False
